@@ -21,19 +21,19 @@ PROPS = {
         note="Trusted: the verifier (pyvc + polyid kernel, sympy factorisation re-checked by expansion), CPython semantics of DESIGN section 3, characteristic not in {2,3}. secp256k1: 'no curve point with y = 0' is a closed fact (eval).",
         design_ref="DESIGN.md section 8 C13"),
     "C18": dict(level="proof", trusted=_COMMON_TRUST, assumptions=[
-        "A-PRIME: the secp256k1 field prime P is prime (standard constant; needed for Z/P to be a field)"],
+        "P prime: Pocklington certificate verified on every run (closed fact primes.certificates)"],
         text="Jacobian add/double/to_jacobian/from_jacobian are proved against the affine law on every path (polyid); jacobian_multiply is proved by induction to return (n mod N).P for every integer n, with termination measure and halving depth bound; add, multiply, privtopub are proved as compositions over those contracts (z3, module normal form); constants are compared with the SEC 2 literals and G on curve, N.G = O by independent integer arithmetic (eval).",
-        note="Assumes P prime (A-PRIME); group axioms of the spec law are Lean-checked (lean/GroupLaw.lean) when ./check --setup has run, otherwise listed as assumed. secp256k1.inv is used through its contract (proved in the ints layer when built, else assumed).",
+        note="P prime by certificate; group axioms of the spec law are Lean-checked (lean/GroupLaw.lean) when ./check --setup has run, otherwise listed as assumed. secp256k1.inv is used through its contract (proved in the ints layer when built, else assumed).",
         design_ref="DESIGN.md section 8 C18"),
     "C07": dict(level="proof", trusted=_COMMON_TRUST, assumptions=[
-        "A-PRIME: field moduli and curve orders of alt_bn128 and BLS12-381 are prime (standard constants)",
+        "primality by certificate: Pocklington certificates (certs/primes.json, verified on every run by the closed fact primes.certificates) for secp256k1 P and N, alt_bn128 p and r, BLS12-381 r; the BLS12-381 field prime p (and the 448-bit factor of h2) only pass Miller-Rabin to 40 bases",
         "field classes implement field arithmetic (proved separately: C08)"],
         text="add/double/neg/eq/is_on_curve/is_inf of the two reference modules (affine, None = infinity) and of the two optimized modules (projective) are proved on every path to compute the affine group law for every field of characteristic > 3 (so for base curve, twist and E(F_p^12) at once); multiply in all four modules is proved by induction to be the n-fold sum for every n >= 0; the abelian-group axioms of the spec law are the Lean lemma L-GROUP; generators, coefficients, moduli, orders are compared with pinned standard literals and their family derivations (eval).",
-        note="Assumes primality of the standard moduli/orders (A-PRIME) and that the field classes are fields (C08). The twist clauses: image on E(F_p^12) for every twist point (units *.twist), optimized = reference (units twist.agree.*), embedding/injectivity by the closed fact twist.embedding + Lean scaling lemmas.",
+        note="Primality of the standard moduli/orders by certificate (BLS12-381 p: probable prime) and the field classes are fields (C08). The twist clauses: image on E(F_p^12) for every twist point (units *.twist), optimized = reference (units twist.agree.*), embedding/injectivity by the closed fact twist.embedding + Lean scaling lemmas.",
         design_ref="DESIGN.md section 8 C07"),
     "C08": dict(level="proof", trusted=_COMMON_TRUST + [
         "ModInt reading: integers in the field classes are interpreted through the ring homomorphism Z -> Z/p with a tracked 'reduced' flag (DESIGN section 4 L1)"],
-        assumptions=["class invariant: field_modulus is prime (A-PRIME for the four real curves)",
+        assumptions=["class invariant: field_modulus is prime (for user instantiations); for the real curves: primality by certificate: Pocklington certificates (certs/primes.json, verified on every run by the closed fact primes.certificates) for secp256k1 P and N, alt_bn128 p and r, BLS12-381 r; the BLS12-381 field prime p (and the 448-bit factor of h2) only pass Miller-Rabin to 40 bases",
                      "class invariant: the modulus polynomial is irreducible and its integer coefficients are 0 or not multiples of p",
                      "FQP.inv: the quotient computed by (optimized_)poly_rounded_div enters only through its contract (length, degree, leading coefficient); the exit fact 'low != 0 unless self = 0' is the Lean lemma Euclid.lean:inv_exit_ne_zero applied to the proved invariants",
                      "FQ.__eq__/__lt__ with an int operand compare the canonical representative with the integer as given (recorded reading, DESIGN section 8 C08)"],
@@ -67,14 +67,14 @@ PROPS = {
         note="Termination of KeyGen is a statement about hash outputs and is assumed.",
         design_ref="DESIGN.md section 8 C16"),
     "C11": dict(level="proof", trusted=_COMMON_TRUST + ["contracts of optimized_curve.is_inf / normalize / is_on_curve (proved generically under C13) are used at their call sites"],
-        assumptions=["A-PRIME: q prime", "L-SQRT34 and sq_eq_sq_cases (Lean) for G1 round-trip completeness",
+        assumptions=["q (BLS12-381 field prime) prime: strong probable prime to 40 bases, no certificate found (p - 1 has a 317-bit cofactor of unknown factorisation)", "L-SQRT34 and sq_eq_sq_cases (Lean) for G1 round-trip completeness",
                      "modular_squareroot_in_FQ2(Y^2) = +-Y is proved from the source (unit codec.sqrt_FQ2) from two lemma instances — (Y^2)^((q^2-1)/8) is a fourth root of unity (Lean Roots.lean check_is_fourth_root) and the exponent identity 2*((q^2+7)/16) = 1 + (q^2-1)/8 (closed fact) — and the table facts of codec.eighth-roots; F_q2 = F_q[u]/(u^2+1) being a field is the class invariant of C08",
                      "closed facts (eval): no point of E or E' has y = 0, no point of E' has x = 0"],
         text="For EVERY 384-bit word (pair of words) decompress_G1/G2 are proved to either raise ValueError or return a reduced on-curve point with z = 1 whose compression is exactly the input (soundness + canonicity, without trusting the square-root routines: their results are havocked and the code's own a-posteriori checks carry the proof), and to refuse exactly the malformed words; compress_G1/G2 are proved to produce the ZCash layout (flags in bits 383/382/381, sign = larger y, imaginary part first); round-trip completeness is proved from the square-root lemmas; the byte helpers give 48/96-byte big-endian strings.",
         note="Known finding D2 (x = 0 on G1) is excluded from the completeness obligation and re-executed concretely on every run. G2 completeness uses the contract of modular_squareroot_in_FQ2 proved by unit codec.sqrt_FQ2.",
         design_ref="DESIGN.md section 8 C11"),
     "C19": dict(level="proof", trusted=_COMMON_TRUST + ["contracts of jacobian_multiply / jacobian_add / from_jacobian / inv (proved under C18) are used at their call sites"],
-        assumptions=["A-PRIME: P and N prime", "A-ORDER(secp256k1): #E = N (forced by Hasse's theorem + N prime + N.G = O: closed facts), so every point has order dividing N",
+        assumptions=["P and N prime: Pocklington certificates verified on every run (primes.certificates)", "A-ORDER(secp256k1): #E = N (forced by Hasse's theorem + N prime + N.G = O: closed facts), so every point has order dividing N",
                      "L-SQRT34 (Lean Fields.lean): only for 'raises ONLY when r^3+7 is a non-residue'"],
         text="ecdsa_raw_recover is executed symbolically for every hash, v, 0 <= r < P, s >= 0: it raises ValueError only for v outside {27,28}, r or s = 0 mod N, or a non-residue r^3+7; otherwise the lifted point has reduced on-curve coordinates with the parity v-27 (the precedence of `v % 2 ^ beta % 2` is taken from the AST), the preconditions of the Jacobian routines hold at the call sites, and the result Q satisfies (r mod N).Q = s.R - z.G, proved in module normal form with coefficients in the field Z/N (polyid). Uniqueness and 'the signature verifies for Q' are the Lean lemmas of lean/Ecdsa.lean.",
         note="Integers modulo P are handled by z3 (with explicit congruence witnesses), scalars by polyid in Z/N.",
@@ -82,35 +82,35 @@ PROPS = {
     "C06": dict(level="proof", trusted=_COMMON_TRUST, assumptions=[
         "good(k) (A-HASH): k mod N != 0, x_R < N, r != 0, s != 0: hash-output facts that the code does not establish (no retry loop); density of the failure set ~2^-127",
         "observation O1 (not a finding under the adopted reading): the nonce uses the hash octets as given; strict RFC 6979 bits2octets differs when OS2IP(msghash) >= N",
-        "A-PRIME, A-ORDER(secp256k1) as C19"],
+        "P, N prime by certificate; A-ORDER(secp256k1) as C19"],
         text="deterministic_generate_k is proved equal to the RFC 6979 section 3.2 first candidate over an uninterpreted HMAC; ecdsa_raw_sign is proved to return r = x(k.G), s = +-k^-1(z + r d) mod N with 1 <= s <= N/2, v in {27,28} and v - 27 = parity(y_R) xor [s flipped]; the property-level lemma (polyid in Z/N) then gives: recover returns d.G, the other v gives another key, and the verification equation holds.",
         note="All of this is under the ghost precondition good(k), listed as an assumption.",
         design_ref="DESIGN.md section 8 C06"),
     "C04": dict(level="proof", trusted=_COMMON_TRUST, assumptions=["A-PAIRING: the optimized ate pairing is bilinear and non-degenerate on G2 x G1 (assumed theorem; what is proved is that the suites call it only on valid subgroup points and how its values are combined)",
                      "contract of hash_to_G2: a function of (message, tag) landing in the prime-order subgroup (C10; point counts forced by Hasse + computed facts, C17)",
                      "codec contracts (C11) and subgroup_check exactness (C17) are used at the call sites",
-                     "A-PRIME: r prime"],
+                     "r prime: Pocklington certificate verified on every run (primes.certificates)"],
         text="KeyValidate, Verify, AggregateVerify (three suites), FastAggregateVerify and PopVerify are executed symbolically from the real source for ARBITRARY byte strings of ANY length and key/message lists of ANY length (loop invariants over the list index): every path ends in a boolean (no exception escapes: each raise is inside a try whose handler tuple contains its class, and every callee's raises clause is covered), True implies every key is the canonical 48-byte encoding of a non-identity subgroup point and the signature the canonical 96-byte encoding of a subgroup point, and at each of the five pairing call sites both arguments are proved valid and in the prime-order subgroup.",
         note="Over the contracts of the decoders (C11), subgroup_check (C17), hash_to_G2 (C10). The pairing itself is not executed here.",
         design_ref="DESIGN.md section 8 C04"),
     "C02": dict(level="proof", trusted=_COMMON_TRUST, assumptions=["A-PAIRING: the optimized ate pairing is bilinear and non-degenerate on G2 x G1 (assumed theorem; what is proved is that the suites call it only on valid subgroup points and how its values are combined)",
                      "contract of hash_to_G2: a function of (message, tag) landing in the prime-order subgroup (C10; point counts forced by Hasse + computed facts, C17)",
                      "codec contracts (C11) and subgroup_check exactness (C17) are used at the call sites",
-                     "A-PRIME: r prime"] + ["A-HASH for the cross-tag clause: H(m, DST1) != H(m, DST2) is a random-oracle fact; proved instead: each suite uses its own pinned tag and message encoding on both sides, and the four tags are pairwise different"],
+                     "r prime: Pocklington certificate verified on every run (primes.certificates)"] + ["A-HASH for the cross-tag clause: H(m, DST1) != H(m, DST2) is a random-oracle fact; proved instead: each suite uses its own pinned tag and message encoding on both sides, and the four tags are pairwise different"],
         text="Verify/PopVerify are proved to return True iff key and signature are canonical subgroup encodings and dl(S) = dl(H(m', tag)) dl(P) mod r for this suite's (m', tag); Sign/PopProve/SkToPk are proved to output enc(sk . H(m', tag)) resp. enc(sk . G1); the property-level lemma (z3, L-CYCLIC from Lean) then gives Verify(SkToPk(sk), m, c) <=> c == Sign(sk, m) byte for byte.",
         note="Relative to A-PAIRING; exponent arithmetic is done by polyid in the field Z/r.",
         design_ref="DESIGN.md section 8 C02"),
     "C01": dict(level="proof", trusted=_COMMON_TRUST, assumptions=["A-PAIRING: the optimized ate pairing is bilinear and non-degenerate on G2 x G1 (assumed theorem; what is proved is that the suites call it only on valid subgroup points and how its values are combined)",
                      "contract of hash_to_G2: a function of (message, tag) landing in the prime-order subgroup (C10; point counts forced by Hasse + computed facts, C17)",
                      "codec contracts (C11) and subgroup_check exactness (C17) are used at the call sites",
-                     "A-PRIME: r prime"] + ["A-HASH: KeyGen's rejection loop terminates"],
+                     "r prime: Pocklington certificate verified on every run (primes.certificates)"] + ["A-HASH: KeyGen's rejection loop terminates"],
         text="The => direction of the C02 lemma (honest signatures and possession proofs verify, all three suites); SkToPk/Sign/PopProve raise ValidationError exactly for non-integers and integers outside [1, r-1]; KeyGen returns a key in [1, r-1] (loop invariant, C16).",
         note="bool is a subclass of int (SkToPk(True) is sk = 1); 'non-integer' is read as 'not an instance of int'.",
         design_ref="DESIGN.md section 8 C01"),
     "C03": dict(level="proof", trusted=_COMMON_TRUST, assumptions=["A-PAIRING: the optimized ate pairing is bilinear and non-degenerate on G2 x G1 (assumed theorem; what is proved is that the suites call it only on valid subgroup points and how its values are combined)",
                      "contract of hash_to_G2: a function of (message, tag) landing in the prime-order subgroup (C10; point counts forced by Hasse + computed facts, C17)",
                      "codec contracts (C11) and subgroup_check exactness (C17) are used at the call sites",
-                     "A-PRIME: r prime"],
+                     "r prime: Pocklington certificate verified on every run (primes.certificates)"],
         text="Aggregate is proved (loop invariant over a list of symbolic length) to return the compressed fold of (+) over the decoded signatures and to raise exactly for an empty list or an entry that is not a 96-byte decodable string; the three AggregateVerify front ends and FastAggregateVerify are proved to return True iff the suite preconditions hold (>= 1 signer, as many keys as messages, every key valid, distinct messages in the basic suite) and dl(S) = sum_i dl(H(m'_i)) dl(P_i) mod r (pairing-product accumulator invariant, polyid in Z/r).",
         note="Known finding K1 (aggregate public key = identity in FastAggregateVerify) is excluded and re-executed concretely on every run.",
         design_ref="DESIGN.md section 8 C03"),
@@ -127,20 +127,20 @@ PROPS = {
         note="Square-root completeness lemmas are assumptions; everything the code tests a posteriori is proved without them.",
         design_ref="DESIGN.md section 8 C10"),
     "C05": dict(level="proof", trusted=_COMMON_TRUST, assumptions=["A-PAIRING: e_T(Q,P) = MillerSpec_T(Q,P)^((p^12-1)/r) is bilinear and non-degenerate on G2 x G1 for the pinned T of each curve and independent of the (binary vs signed-digit) addition chain — ASSUMED (Miller 2004, Vercauteren 2010); no contract within reach can prove it (needs divisor theory not in Mathlib). Bounded stand-in: run-time monitor pairing_bilinearity on the real code (listed under bounded_standins, never counted in discharged)",
-                     "A-PRIME, L-CYCLIC: m.Q != O for 0 < m < r (linefunc preconditions inside the Miller loop)",
+                     "r prime (certificate), L-CYCLIC: m.Q != O for 0 < m < r (linefunc preconditions inside the Miller loop)",
                      "curve-level contracts of linefunc / double / add / neg / twist (C13, C07) are used at the call sites"],
         text="For all four modules: pairing() is proved to raise exactly when an argument is not on its curve and to return the unit when either argument is infinity (any representative), otherwise miller_loop on the twisted / cast points; each Miller loop is executed along its digit string and proved, as an identity in the line-function symbols, to compute the textbook Miller recurrence MillerSpec_T for the pinned loop parameter (incl. the two Frobenius lines of the BN optimal ate pairing) raised to (p^12-1)/r; line-function preconditions hold at every call; pairing(G2,G1) has order exactly r (eval on the real code). Bilinearity and non-degeneracy themselves are the assumed theorem A-PAIRING about MillerSpec; what is proved is that the code computes the textbook object for every input.",
         note="Decided relative to A-PAIRING; the monitor is a bounded stand-in, reported separately.",
         design_ref="DESIGN.md section 8 C05"),
     "C12": dict(level="proof", trusted=_COMMON_TRUST, assumptions=["A-PAIRING: e_T(Q,P) = MillerSpec_T(Q,P)^((p^12-1)/r) is bilinear and non-degenerate on G2 x G1 for the pinned T of each curve and independent of the (binary vs signed-digit) addition chain — ASSUMED (Miller 2004, Vercauteren 2010); no contract within reach can prove it (needs divisor theory not in Mathlib). Bounded stand-in: run-time monitor pairing_bilinearity on the real code (listed under bounded_standins, never counted in discharged)",
-                     "A-PRIME, L-CYCLIC: m.Q != O for 0 < m < r (linefunc preconditions inside the Miller loop)",
+                     "r prime (certificate), L-CYCLIC: m.Q != O for 0 < m < r (linefunc preconditions inside the Miller loop)",
                      "curve-level contracts of linefunc / double / add / neg / twist (C13, C07) are used at the call sites"] + ["C12(b): equality of the optimized (signed-digit) and reference (binary) bn128 pairings AFTER final exponentiation is chain-independence, part of A-PAIRING: assumed + bounded monitor (coefficient-wise comparison)"],
         text="bls12-381: optimized and reference Miller loops are both proved equal to the same MillerSpec (same binary digit string), hence equal Miller values and pairing values; final_exponentiate of the optimized bls12-381 module is proved to raise to exactly (p^12-1)/r for every element incl. 0 (exponent bookkeeping over the exp_by_p contract, closed integer identity), the other three by definition; exp_by_p is proved linear over its table, the table entries are (w^i)^p (eval), x^p follows by L-FROB (Lean); final_exponentiate of a product is the product (L-POW, Lean).",
         note="bn128 optimized-vs-reference equality rests on A-PAIRING (bounded monitor).",
         design_ref="DESIGN.md section 8 C12"),
     "C17": dict(level="proof", trusted=_COMMON_TRUST, assumptions=[
         "Hasse's theorem (|#E(F_q) - q - 1| <= 2 sqrt q; classical, not in Mathlib): with it #E(F_p) = h1 r and #E'(F_p2) = h2 r are FORCED by computed facts on the real code (bls.hasse-G1: r | #E and one multiple of r in the interval; bls.order-twist: a point of E'(F_p2) of order divisible by c r > 4p + 2, c the 448-bit prime factor of h2)",
-        "A-PRIME: r and the 448-bit factor c of h2 are prime (strong probable primes to 40 bases; no certificate)"],
+        "r prime by certificate; the 448-bit factor c of h2 is a strong probable prime to 40 bases (no certificate: c - 1 has a 268-bit composite cofactor two levels down)"],
         text="subgroup_check is proved (over the contracts of multiply and is_inf) to return True exactly when r.abs(P) = O for the pinned r, for any representative; cofactor clearing is proved to be multiplication by the pinned RFC 9380 effective cofactors; the cofactor constants are derived from the curve parameter x by eval. That r.(kG+T) = O iff T = O for cofactor-torsion T is Lean lemma subgroup_check_exact with gcd(h, r) = 1 by eval.",
         note="'Maps every curve point into the subgroup': the point counts are forced by Hasse's theorem plus computed facts; the structure of the G1 cofactor part (exponent |1 - x|, RFC 9380 section 8.8.1) is the computed fact bls.struct-G1 (two independent points of order l for each prime l | x - 1); Lean Cofactor.lean then gives r.(h_eff.P) = O.",
         design_ref="DESIGN.md section 8 C17"),
